@@ -223,6 +223,7 @@ type Proc struct {
 	OpCount   int  // all vfs calls made so far (visible or not)
 	CrashAt   int  // if >0: crash immediately before the vfs call with this ordinal (1-based)
 	faultNext bool // the pending filesystem call fails with EIO and has no effect (injected fault)
+	FaultAt   int  // if >0: the vfs call with this ordinal (1-based, reads and writes included) fails with EIO
 	Faults    int
 	InCall    bool
 	// Local is free for the harness (e.g. the process's handles).
@@ -294,6 +295,9 @@ func (w *World) enter(op Op, visible bool) *Proc {
 		p.killed = true
 		p.Crashed = true
 		panic(killSentinel{})
+	}
+	if p.FaultAt > 0 && p.OpCount == p.FaultAt && op.Kind != "close" && op.Kind != "remove" {
+		p.faultNext = true
 	}
 	if visible || w.AllVisible {
 		p.point(op)
@@ -732,6 +736,11 @@ func (f *fd) Read(b []byte) (int, error) {
 	bn := filepath.Base(f.name)
 	p := w.enter(Op{Kind: "read", Name: bn}, w.othersHave(f.ino, f.owner, true))
 	ev := &Event{Pid: p.ID, Op: Op{Kind: "read", Name: bn}}
+	if p.takeFault() {
+		ev.Err = "EIO"
+		w.record(ev)
+		return 0, pathErr("read", f.name, syscall.EIO)
+	}
 	if f.closed {
 		ev.Err = "closed"
 		w.record(ev)
@@ -754,6 +763,11 @@ func (f *fd) ReadAt(b []byte, off int64) (int, error) {
 	bn := filepath.Base(f.name)
 	p := w.enter(Op{Kind: "readat", Name: bn}, w.othersHave(f.ino, f.owner, true))
 	ev := &Event{Pid: p.ID, Op: Op{Kind: "readat", Name: bn}}
+	if p.takeFault() {
+		ev.Err = "EIO"
+		w.record(ev)
+		return 0, pathErr("read", f.name, syscall.EIO)
+	}
 	if f.closed {
 		ev.Err = "closed"
 		w.record(ev)
@@ -800,6 +814,11 @@ func (f *fd) Stat() (os.FileInfo, error) {
 	bn := filepath.Base(f.name)
 	p := w.enter(Op{Kind: "fstat", Name: bn}, w.othersHave(f.ino, f.owner, true))
 	ev := &Event{Pid: p.ID, Op: Op{Kind: "fstat", Name: bn}}
+	if p.takeFault() {
+		ev.Err = "EIO"
+		w.record(ev)
+		return nil, pathErr("stat", f.name, syscall.EIO)
+	}
 	if f.closed {
 		ev.Err = "closed"
 		w.record(ev)
